@@ -170,12 +170,16 @@ func skipValue(buf []byte, cursor, depth int64) (int64, error) {
 				}
 			}
 		case '-', '0', '1', '2', '3', '4', '5', '6', '7', '8', '9':
+			start := cursor
 			for {
 				cursor++
 				if floatTable[buf[cursor]] {
 					continue
 				}
 				break
+			}
+			if !isValidNumberToken(buf[start:cursor]) {
+				return 0, errors.ErrSyntax(invalidNumberLiteral, cursor)
 			}
 			return cursor, nil
 		case 't':
